@@ -2917,20 +2917,19 @@ def _check_is_flatten(new_shape, old_shape, return_flatten_dim=False):
         if return_flatten_dim:
             return False, (-1, -1)
         return False
-    # a shape is a flatten version of another if all the first sizes and/or all the last sizes match
-    for i, (first_new, first_old) in enumerate(zip(new_shape, old_shape)):  # noqa: B007
-        if first_new != first_old:
-            break
-    # 'i' must be the result of the flatten op
-    for j, (last_new, last_old) in enumerate(  # noqa: B007
-        zip(reversed(new_shape), reversed(old_shape))
+    # new_shape flattens old_shape if it is old_shape with the dims i..j merged into new_shape[i]:
+    # i is the first size that differs (the last one if none does), the sizes after i are the last sizes of old_shape
+    i = 0
+    while i < min(len(new_shape), len(old_shape)) - 1 and new_shape[i] == old_shape[i]:
+        i += 1
+    j = len(old_shape) - (len(new_shape) - i)
+    if (
+        j >= i
+        and tuple(new_shape[:i]) == tuple(old_shape[:i])
+        and tuple(new_shape[i + 1 :]) == tuple(old_shape[j + 1 :])
+        and math.prod(old_shape[i : j + 1]) == new_shape[i]
     ):
-        if last_new != last_old:
-            break
-    # j is also the result of the flatten, so if j and i match this is the result of a flatten
-    if i == len(new_shape) - j - 1:
         if return_flatten_dim:
-            j = len(old_shape) - j - 1
             return True, (i, j)
         return True
     if return_flatten_dim:
